@@ -13,7 +13,8 @@ from ..outcome import CaseTimeout, exc_bucket, fail, inconclusive, passed
 
 ID = 'C16'
 LEVEL = 'exploration'
-CASES = {'quick': 560, 'thorough': 9000}
+CASES = {'quick': 720, 'thorough': 7000}
+SHRINK_BUDGET = {'quick': 30, 'thorough': 200}
 CASE_TIMEOUT = 30
 TECHNIQUE = ('property-based testing (Hypothesis) with fault injection: generated networks x generated fault plans; '
              'wntr.sim.core._solver_helper is wrapped for the duration of one run to count/label solver calls and '
@@ -24,12 +25,19 @@ RULE = ('Case = network spec (netgen: 2-6 junctions, tanks, pumps, valves, leaks
         'or off the hydraulic grid, so the failing step can be a partial step) x fault plan: none | solver failure '
         'injected at the k-th primary solver call (k anywhere: absolute, inside a re-solve trial, at a partial '
         'step, at the last call; messages iteration limit / singular Jacobian / line search) | genuinely small '
-        'MAXITER (0,1,2,3,5,8); options.hydraulic.trials in {0,1,2,3,8}; backup solver absent / present and '
-        'succeeding (real call) / present and failing; convergence_error True/False. Every case runs the model '
-        'once without fault (trials=8, default solver options) and once with the plan; both runs are judged. '
+        'MAXITER (0,1,2,3,5,8); options.hydraulic.trials in {0,1,2,3,8}; backup solver absent / NewtonSolver '
+        'succeeding (real call) / NewtonSolver failing / scipy fsolve (with and without Jacobian); primary solver '
+        'NewtonSolver or (1/8) scipy fsolve; convergence_error True/False. Enumerated part: one fixed looped '
+        'tank network with a chain gadget off the grid x every solver call k x backup none/ok/fail x '
+        'convergence_error x report ALL / 2*hyd, and trials 0..3 x osc/chain. Every case runs the model once without '
+        'fault (trials=8, default solver options) and once with the plan, both forked from one process state; both '
+        'runs are judged. '
         'Non-trivial = a failing run whose failing solver call is not the first call of the run, or a trial-limit '
         'failure, or a completed run with >= 2 reported rows; distinct = SHA-1 of the case.')
 ASSUMPTIONS = [
+    'input domain: valve layouts that EPANET accepts (no two of PRV/PSV/FCV share a node; netgen\'s wild profile can '
+    'produce them and WNTR then raises ValueError "number of constraints and variables must be equal" - recorded as '
+    'out of domain, not as a violation)',
     'a step "cannot be solved" when the primary solver call returns SolverStatus.error and no backup call for the '
     'same step returns converged (read from the wrapped calls), or when run_sim itself reports "Exceeded maximum '
     'number of trials"; the exact trial count at which WNTR gives up is not demanded, only that a step never gets '
@@ -52,8 +60,9 @@ ASSUMPTIONS = [
     'scipy.optimize.fsolve (documented as an alternative solver) is used as primary solver in 1/8 of the cases and as '
     'backup solver in 2/9; rows after a step solved by another kind of solver than the primary are not compared',
 ]
-TOLERANCES = {'prefix_equality': '1e-9*max(1,|reference|) (statement of the task: same steps; WNTR itself is '
-                                 'deterministic up to ~1e-12 from the variable ordering of the C++ evaluator)'}
+TOLERANCES = {'prefix_equality': '1e-9*max(1,|reference|) (the statement says "the same"; the two runs are forked from '
+                                 'one process state and single-threaded, which makes them bit-identical up to the '
+                                 'fault; two independent runs of one model can differ by 1e-5 in a flow)'}
 LEVEL_TEXT = ('exploration: sampled networks x sampled fault points; every solver call of the faulted run is observed, '
               'so a hidden failed step or a run that goes on after a failed step is detected whenever it is exercised')
 LEVEL_NOTE = ('trusted base: the call wrapper (labels calls by the option dicts given to run_sim), wn.sim_time as the '
@@ -64,6 +73,7 @@ FEAT = {'nj': (2, 6), 'tanks': (0, 2), 'extra_res': (0, 1), 'pumps': True, 'valv
         'booster': True, 'wild': 0.2, 'hyd_steps': [600, 900, 1800, 3600, 7200],
         'durations': [0, 3600, 7200, 4 * 3600, 4 * 3600, 8 * 3600]}
 REF_TRIALS = 8
+ITER_BUDGET = 12000     # Newton iterations per run; a model needing more is inconclusive (keeps the tier budget)
 MSGS = ['Reached maximum number of iterations: 2999', 'Jacobian is singular at iteration 0',
         'Line search failed at iteration 3']
 NODE_TABLES = ('head', 'demand', 'pressure', 'leak_demand')
@@ -77,7 +87,7 @@ def _case(draw, tier):
     if tier == 'thorough':
         f['nj'] = (2, 10)
         f['durations'] = f['durations'] + [12 * 3600, 24 * 3600]
-    net = draw(netgen.network(f))
+    net = legal_valves(draw(netgen.network(f)))
     o = net['opts']
     hyd, dur = o['hyd'], o['duration']
     gk = draw(st.sampled_from(['none', 'none', 'osc', 'osc', 'chain', 'chain']))
@@ -98,6 +108,21 @@ def _case(draw, tier):
             'conv': draw(st.booleans()),
             'trials': draw(st.sampled_from([0, 1, 2, 3, REF_TRIALS]))}
     return {'net': net, 'gadget': gadget, 'plan': plan}
+
+
+def legal_valves(net):
+    """EPANET refuses (error 220) PRVs that share a downstream node or are in series, PSVs that share an upstream
+    node or are in series, a PSV at the downstream node of a PRV and the like; WNTR accepts them and then fails with
+    a ValueError from the AML (a head that appears in no equation).  Stricter than EPANET, by construction: no two
+    of PRV/PSV/FCV share a node; a later offender becomes a TCV."""
+    used = set()
+    for v in net['valves']:
+        if v['type'] in ('PRV', 'PSV', 'FCV'):
+            if v['a'] in used or v['b'] in used:
+                v['type'], v['setting'] = 'TCV', 5.0
+            else:
+                used.update((v['a'], v['b']))
+    return net
 
 
 def strategy(tier='quick'):
@@ -123,12 +148,12 @@ def _enum_net():
 
 def enumerate_cases(tier='quick'):
     """one fixed model x every solver call k x backup variant x convergence_error x report step (ALL / 2*hyd)"""
-    for rep in ('ALL', 7200):
+    for rep, T in [('ALL', 3737), (7200, 3737)] + ([('ALL', 7200), (3600, 7200)] if tier == 'thorough' else []):
         net = _enum_net()
         net['opts']['rep'] = rep
-        gadget = {'kind': 'chain', 'at': 1, 'T': 3600 + 137, 'm': 2, 'dem': 0.0005}
-        for k in range(9):          # the fault-free run makes 8 solver calls
-            for backup in ('none', 'ok', 'fail'):
+        gadget = {'kind': 'chain', 'at': 1, 'T': T, 'm': 2, 'dem': 0.0005}
+        for k in range(8):          # the fault-free run makes 8 solver calls (5 grid steps + 1 event, 2 re-solves)
+            for backup in ('none', 'ok', 'fail') + (('fsolve',) if tier == 'thorough' else ()):
                 for conv in (False, True):
                     yield {'net': net, 'gadget': gadget,
                            'plan': {'kind': 'inject', 'solver': 'newton', 'mode': 'abs', 'k': k, 'msg': k % 3,
@@ -225,7 +250,7 @@ def simulate(spec, cfg, inject_at):
         return run
     log = run['log']
     real = core._solver_helper
-    state = {'primary': 0, 'hit': False}
+    state = {'primary': 0, 'hit': False, 'iters': 0}
 
     per_step = (trials + 2) * (2 if backup else 1)
 
@@ -252,6 +277,11 @@ def simulate(spec, cfg, inject_at):
                 return (SolverStatus.error, backup_msg, 0)
         out = real(model, solver, opts)
         e['status'] = int(out[0])
+        if isinstance(out[2], int):
+            state['iters'] += out[2]
+            if state['iters'] > ITER_BUDGET:      # deterministic stand-in for a wall-clock budget
+                run['iter_budget'] = True
+                raise _Abort()
         return out
 
     # the same keyword shape with and without a backup solver (keeps the two forked runs allocation-identical)
@@ -359,6 +389,9 @@ def _spawn_pair(spec, cfg_a, cfg_b, handles):
     pid = os.fork()
     if pid == 0:
         pad = int('1234567')   # noqa: F841  mirrors the pid object that exists in the lineage of run B
+        if cfg_b is not None:
+            for fd in (rb, wb, grb, gwb):
+                os.close(fd)
         _child(spec, cfg_a, ra, wa, gra, gwa)
     ha['pid'] = pid
     if cfg_b is not None:
@@ -398,7 +431,7 @@ def _collect(h):
         return {'crashed': os.WTERMSIG(status)}
     data = b''.join(chunks)
     if not data:
-        return {'harness_error': 'child produced no data (exit status %r)' % (status,)}
+        raise RuntimeError('C16 harness error: the forked run produced no data (wait status %r)' % (status,))
     out = pickle.loads(data)
     if 'harness_error' in out:
         raise RuntimeError('C16 harness error in the forked run:\n' + out['harness_error'])
@@ -733,6 +766,8 @@ def _once(case):
         ref_run = _collect(ha)
         if ref_run.get('crashed') and ref_run['crashed'] not in CRASH_SIGNALS:
             return inconclusive('forked run killed by signal %d' % ref_run['crashed'], tags)
+        if ref_run.get('iter_budget'):
+            return inconclusive('model converges too slowly: more than %d Newton iterations in one run' % ITER_BUDGET, tags)
         if ref_run.get('build_error'):
             return fail(ref_run['build_error'][0], 'building the model raised %s' % ref_run['build_error'][1], tags)
         ref = {'tags': []}
@@ -750,6 +785,8 @@ def _once(case):
             return inconclusive('forked run killed by signal %d' % run['crashed'], tags)
     finally:
         _reap(handles)
+    if run.get('iter_budget'):
+        return inconclusive('model converges too slowly: more than %d Newton iterations in one run' % ITER_BUDGET, tags)
     info = {'tags': []}
     bad = judge(run, spec, info)
     tags += info['tags']
